@@ -397,6 +397,7 @@ def run(ctx):
 
     # ---------------- model ----------------
     exprs, meta = [], []
+    kkdrv.INTERN = kkdrv.Interner()
     for h in hs:
         obs, err = out[h["id"]]
         files = dict(h["init_files"]) if not h["keydir_is_file"] else {}
@@ -418,7 +419,9 @@ def run(ctx):
                 files = {n: c for n, c in obs[i]["key_dir"]}
         exprs.append("run_obs kk_init %s" % vplib.clist(steps, "(answers * bool)%type"))
         meta.append(local_before)
-    model = vplib.coq_eval(ctx, "From GPA Require Import KeyKeeper.", exprs, shard=max(1, len(exprs) // 16 + 1), name="c09")
+    model = vplib.coq_eval(ctx, "From GPA Require Import KeyKeeper.", exprs, prelude=kkdrv.INTERN.prelude(),
+                           shard=max(1, len(exprs) // 16 + 1), name="c09")
+    kkdrv.INTERN = None
     aux.close()
 
     # ---------------- compare + property ----------------
